@@ -52,6 +52,7 @@ type Obligation struct {
 	PermuteMaps   bool
 	Validate      int
 	NoPanicCheck  bool // escaping panics are expected outcomes, not violations
+	IdxIte        bool // read buffers at symbolic indices through ite chains instead of case-splitting the index
 	Fn            *ssa.Function
 }
 
@@ -119,6 +120,20 @@ type Session struct {
 	byteConst [256]*Term
 	strCache  map[string]*StrV
 	overrides map[string]*ssa.Function
+
+	// package initialisation is concrete, so its result is computed once per
+	// session and shared by all paths (see value.go touchObj)
+	assertMemo  map[[2]uint64]bool // (path-condition hash, assertion term) -> proved implied
+	initCache   map[*ssa.Package][]globalBinding
+	initDepth   int
+	touched     map[*Object]bool
+	touchedMaps map[*MapObj]bool
+	undo        []func()
+}
+
+type globalBinding struct {
+	g *ssa.Global
+	o *Object
 }
 
 func (s *Session) intrinsic(fn *ssa.Function) intrinsicFn { return s.w.intrinsicFor(fn) }
@@ -149,7 +164,9 @@ var skipInitPkgs = map[string]bool{
 }
 
 func NewSession(w *World) *Session {
-	s := &Session{w: w, ts: NewTermStore(), strCache: map[string]*StrV{}, overrides: w.overrides}
+	s := &Session{w: w, ts: NewTermStore(), strCache: map[string]*StrV{}, overrides: w.overrides,
+		assertMemo: map[[2]uint64]bool{},
+		initCache:  map[*ssa.Package][]globalBinding{}, touched: map[*Object]bool{}, touchedMaps: map[*MapObj]bool{}}
 	for i := 0; i < 256; i++ {
 		s.byteConst[i] = s.ts.ConstU(8, uint64(i))
 	}
@@ -269,6 +286,7 @@ func obligationsOf(hf *HarnessFile, property string) []*Obligation {
 			Validate:      atoiDef(kv["validate"], 0),
 			PermuteMaps:   kv["permute"] == "true",
 			NoPanicCheck:  kv["nopanic"] == "off",
+			IdxIte:        kv["idx"] == "ite",
 		}
 		if base.Tier == "" {
 			base.Tier = "quick"
@@ -409,6 +427,8 @@ func (s *Session) newInterp(ob *Obligation, r *ObResult, sol *Solver, decisions 
 		varSeen:   map[string]bool{},
 		reached:   map[string]bool{},
 		hashApps:  map[string][]*hashApp{},
+		fixed:     map[int]*Term{},
+		pcSet:     map[int]bool{},
 		ob:        ob, r: r,
 	}
 	in.allocated = s.ts.ConstU(64, 0)
@@ -483,6 +503,7 @@ func (w *World) runObligation(ob *Obligation, debug bool) *ObResult {
 	for {
 		in := s.newInterp(ob, r, sol, decisions)
 		end, gp := in.runPath()
+		s.endPath()
 		r.Paths++
 		r.Steps += in.steps
 		for k := range in.reached {
@@ -592,7 +613,11 @@ func (in *Interp) checkAssert(c *Term, label string) {
 		if c.IsFalse() {
 			panic(pathEnd{"done", "assertion cannot hold on this path"})
 		}
-		in.assume(c)
+		if in.sess.assertMemo[[2]uint64{in.pcHash, uint64(c.id)}] {
+			in.note(c) // was proved implied by the path condition
+		} else {
+			in.assume(c)
+		}
 		return
 	}
 	r.Asserts++
@@ -641,6 +666,11 @@ func (in *Interp) checkAssert(c *Term, label string) {
 		}
 	}
 	// continue under the assertion
+	if res == Unsat && anyKnown.IsFalse() {
+		in.sess.assertMemo[[2]uint64{in.pcHash, uint64(c.id)}] = true
+		in.note(c)
+		return
+	}
 	if c.IsFalse() || in.feasible(c) == Unsat {
 		panic(pathEnd{"done", "assertion cannot hold on this path"})
 	}
